@@ -1421,3 +1421,471 @@ Proof.
       * apply (merge_conserves_lemma ps q H k j).
       * intros s Hs E. apply Hout. rewrite <- E. apply in_map. exact Hs.
 Qed.
+
+(* ------------------------------------------------------------------ validity of the result *)
+(* what CheckValid guarantees about a source, as far as Merge depends on it *)
+Definition src_ok (src : profile) (nst : nat) : Prop :=
+  (forall l, In l (p_location src) -> forall ln, In ln (l_lines l) -> lookup_fn src (ln_fn ln) <> None) /\
+  (forall s, In s (p_sample src) ->
+     (forall id, In id (s_loc s) -> lookup_loc src id <> None) /\ List.length (s_val s) = nst).
+
+(* no nil function in a line, no nil location in a sample, all value vectors of one length *)
+Record nn (st : profile) (nst : nat) : Prop := {
+  nn_lines : Forall (fun l => Forall (fun ln => ln_fn ln <> 0) (l_lines l)) (p_location st);
+  nn_locs : Forall (fun s => Forall (fun id => id <> 0) (s_loc s)) (p_sample st);
+  nn_len : Forall (fun s => List.length (s_val s) = nst) (p_sample st)
+}.
+
+Lemma lookup_fn_0 : forall p, lookup_fn p 0 = None.
+Proof. reflexivity. Qed.
+Lemma lookup_loc_0 : forall p, lookup_loc p 0 = None.
+Proof. reflexivity. Qed.
+
+Lemma line_idents_nz : forall a b la lb,
+  map (line_ident_of a) la = map (line_ident_of b) lb ->
+  (forall ln, In ln lb -> lookup_fn b (ln_fn ln) <> None) ->
+  Forall (fun ln => ln_fn ln <> 0) la.
+Proof.
+  intros a b. induction la as [|x la IH]; intros lb E H; [constructor|].
+  destruct lb as [|y lb]; [discriminate|]. cbn [map] in E.
+  unfold line_ident_of at 1 3, line_ident_of_slots, line_slots in E. injection E as F1 F2 F3 E2.
+  constructor.
+  - intros Z0. rewrite Z0, lookup_fn_0 in F1. cbn in F1.
+    specialize (H y (or_introl eq_refl)). destruct (lookup_fn b (ln_fn y)); [discriminate | congruence].
+  - eapply IH; [exact E2|]. intros ln Hin. apply H. right. exact Hin.
+Qed.
+
+Lemma nn_same_tables : forall st st' nst,
+  nn st nst -> p_location st' = p_location st -> p_sample st' = p_sample st -> nn st' nst.
+Proof. intros st st' nst [N1 N2 N3] E1 E2. split; rewrite ?E1, ?E2; assumption. Qed.
+
+Lemma map_mapping_nn : forall st src mid st' r nst,
+  ok st -> nn st nst -> map_mapping st src mid = (st', r) -> nn st' nst.
+Proof.
+  intros st src mid st' [g off] nst Hok N H.
+  destruct (map_mapping_spec _ _ _ _ _ _ Hok H) as (_ & _ & A3 & A4 & _).
+  eapply nn_same_tables; eauto.
+Qed.
+
+Lemma map_lines_nn : forall st src lns st' r nst,
+  ok st -> nn st nst -> map_lines st src lns = (st', r) -> nn st' nst.
+Proof.
+  intros st src lns st' r nst Hok N H.
+  destruct (map_lines_spec _ _ _ _ _ Hok H) as (_ & _ & A3 & A4 & _).
+  eapply nn_same_tables; eauto.
+Qed.
+
+Lemma map_location_nn : forall st src lid st' g nst,
+  ok st -> nn st nst -> src_ok src nst -> map_location st src lid = (st', g) ->
+  nn st' nst /\ (lookup_loc src lid <> None -> g <> 0).
+Proof.
+  intros st src lid st' g nst Hok N [S1 S2] H. split.
+  - unfold map_location in H. destruct (lookup_loc src lid) as [l|] eqn:EL; [|inversion H; subst; exact N].
+    unfold map_location_rec in H.
+    destruct (map_mapping st src (l_mapping l)) as [st1 [mid off]] eqn:E1.
+    destruct (map_lines st1 src (l_lines l)) as [st2 lines] eqn:E2.
+    destruct (map_mapping_spec _ _ _ _ _ _ Hok E1) as (A1 & _).
+    pose proof (map_mapping_nn _ _ _ _ _ _ Hok N E1) as N1.
+    pose proof (map_lines_nn _ _ _ _ _ _ A1 N1 E2) as [M1 M2 M3].
+    destruct (map_lines_spec _ _ _ _ _ A1 E2) as (_ & _ & _ & _ & _ & _ & B7).
+    match type of H with context [find ?f ?l] => destruct (find f l) as [g0|] eqn:E end;
+      inversion H; subst; clear H.
+    + split; assumption.
+    + split; cbn; try assumption. apply Forall_app. split; [exact M1|]. constructor; [|constructor]. cbn.
+      eapply line_idents_nz; [exact B7|]. apply S1. eapply lookup_loc_in; eauto.
+  - intros Hs Z0. destruct (map_location_spec _ _ _ _ _ Hok H) as (_ & _ & _ & _ & A5).
+    subst g. unfold frames_of_id in A5. rewrite lookup_loc_0 in A5.
+    destruct (lookup_loc src lid); [discriminate | congruence].
+Qed.
+
+Lemma map_locs_nn : forall src nst ids st st' r,
+  ok st -> nn st nst -> src_ok src nst -> map_locs st src ids = (st', r) ->
+  (forall id, In id ids -> lookup_loc src id <> None) ->
+  nn st' nst /\ Forall (fun id => id <> 0) r.
+Proof.
+  intros src nst. induction ids as [|id ids IH]; intros st st' r Hok N S H Hs; cbn [map_locs] in H.
+  - inversion H; subst. split; [exact N | constructor].
+  - destruct (map_location st src id) as [st1 id'] eqn:E1.
+    destruct (map_locs st1 src ids) as [st2 r'] eqn:E2. inversion H; subst.
+    destruct (map_location_spec _ _ _ _ _ Hok E1) as (A1 & _).
+    destruct (map_location_nn _ _ _ _ _ _ Hok N S E1) as [N1 Hnz].
+    destruct (IH _ _ _ A1 N1 S E2) as [N2 F]; [intros x Hx; apply Hs; right; exact Hx|].
+    split; [exact N2|]. constructor; [|exact F]. apply Hnz. apply Hs. left. reflexivity.
+Qed.
+
+Lemma length_add_vals : forall a b, List.length b = List.length a -> List.length (add_vals a b) = List.length a.
+Proof.
+  induction a as [|x a IH]; intros b H; destruct b as [|y b]; cbn in *; try discriminate; try reflexivity.
+  rewrite IH; [reflexivity | lia].
+Qed.
+
+Lemma map_sample_nn : forall st src s nst,
+  ok st -> nn st nst -> src_ok src nst -> In s (p_sample src) -> nn (map_sample st src s) nst.
+Proof.
+  intros st src s nst Hok N S Hin. pose proof S as [S1 S2]. destruct (S2 s Hin) as [Hl Hlen].
+  unfold map_sample. destruct (map_locs st src (s_loc s)) as [st1 locs] eqn:E.
+  destruct (map_locs_nn _ _ _ _ _ _ Hok N S E Hl) as [[M1 M2 M3] F].
+  destruct (existsb _ (p_sample st1)).
+  - split; cbn; try assumption.
+    + apply Forall_upd_first; [|exact M2]. intros x Hx. exact Hx.
+    + apply Forall_upd_first; [|exact M3]. intros x Hx. cbn. rewrite length_add_vals; congruence.
+  - split; cbn; try assumption.
+    + apply Forall_app. split; [exact M2|]. constructor; [exact F | constructor].
+    + apply Forall_app. split; [exact M3|]. constructor; [exact Hlen | constructor].
+Qed.
+
+Lemma merge_src_nn : forall st src nst, ok st -> nn st nst -> src_ok src nst -> nn (merge_src st src) nst.
+Proof.
+  intros st src nst Hok N S. unfold merge_src.
+  destruct (eager_first_mapping_spec st src Hok) as (A1 & A2 & A3).
+  assert (N1 : nn (eager_first_mapping st src) nst).
+  { unfold eager_first_mapping in *. destruct (p_mapping st); [|exact N].
+    destruct (p_mapping src) as [|m r]; [exact N|].
+    destruct (map_mapping_rec st m) as [st1 [g off]] eqn:E. cbn in *.
+    destruct (map_mapping_rec_spec _ _ _ _ _ Hok E) as (_ & _ & B3 & B4 & _).
+    eapply nn_same_tables; eauto. }
+  assert (G : forall l st0, (forall s, In s l -> In s (p_sample src)) -> ok st0 -> nn st0 nst ->
+                            nn (fold_left (merge_sample src) l st0) nst).
+  { induction l as [|s l IH]; intros st0 Hsub O0 N0; cbn [fold_left]; [exact N0|].
+    destruct (merge_sample_spec st0 src s O0) as (B1 & _).
+    apply IH; [intros x Hx; apply Hsub; right; exact Hx | exact B1|].
+    unfold merge_sample. destruct (is_zero_sample s); [exact N0|].
+    apply map_sample_nn; auto. apply Hsub. left. reflexivity. }
+  apply G; auto.
+Qed.
+
+Lemma merge_srcs_nn : forall nst l st,
+  ok st -> nn st nst -> Forall (fun p => src_ok p nst) l -> nn (fold_left merge_src l st) nst.
+Proof.
+  intros nst. induction l as [|p l IH]; intros st O N H; cbn [fold_left]; [exact N|].
+  inversion H as [|? ? Hp Hl]; subst. destruct (merge_src_spec st p O) as (B1 & _).
+  apply IH; [exact B1 | apply merge_src_nn; assumption | exact Hl].
+Qed.
+
+Lemma valid_b_src_ok : forall p, valid_b p = true -> src_ok p (List.length (p_sampletype p)).
+Proof.
+  intros p H. unfold valid_b in H.
+  repeat match type of H with (_ && _ = true) => apply andb_true_iff in H; destruct H as [H ?] end.
+  match goal with Hs : forallb _ (p_sample p) = true, Hl : forallb _ (p_location p) = true |- _ =>
+    rewrite forallb_forall in Hs, Hl; split end.
+  - intros l Hl ln Hln. match goal with Hx : forall x, In x (p_location p) -> _ |- _ => specialize (Hx l Hl);
+      apply andb_true_iff in Hx; destruct Hx as [_ Hx]; rewrite forallb_forall in Hx; specialize (Hx ln Hln) end.
+    destruct (lookup_fn p (ln_fn ln)); [discriminate | discriminate].
+  - intros s Hs. match goal with Hx : forall x, In x (p_sample p) -> _ |- _ => specialize (Hx s Hs);
+      apply andb_true_iff in Hx; destruct Hx as [Hlen Hx]; rewrite forallb_forall in Hx end.
+    split; [|apply Nat.eqb_eq; exact Hlen].
+    intros id Hid. match goal with Hx : forall x, In x (s_loc s) -> _ |- _ => specialize (Hx id Hid) end.
+    destruct (lookup_loc p id); discriminate.
+Qed.
+
+Lemma ids_from_nodupZ : forall {A} (idf : A -> Z) l b, ids_from idf b l -> nodupZ (map idf l) = true.
+Proof.
+  intros A idf. induction l as [|x r IH]; intros b H; cbn; [reflexivity|].
+  apply ids_from_cons_inv in H. destruct H as [Hx Hr]. rewrite (IH _ Hr), andb_true_r.
+  apply negb_true_iff. destruct (existsb (Z.eqb (idf x)) (map idf r)) eqn:E; [|reflexivity].
+  apply existsb_exists in E. destruct E as [z [Hz Ez]]. apply Z.eqb_eq in Ez. subst z.
+  apply in_map_iff in Hz. destruct Hz as [y [Ey Hy]].
+  pose proof (ids_from_in idf r (b + 1) y Hr Hy). lia.
+Qed.
+
+Lemma ids_seq_nonzero : forall {A} (idf : A -> Z) l, ids_seq idf l -> forallb (fun x => negb (idf x =? 0)) l = true.
+Proof.
+  intros A idf l H. apply forallb_forall. intros x Hx. pose proof (ids_from_in idf l 1 x H Hx).
+  apply negb_true_iff. apply Z.eqb_neq. lia.
+Qed.
+
+Lemma lookup_some_of_range : forall {A} (idf : A -> Z) l id,
+  ids_seq idf l -> 0 <= id <= Z.of_nat (List.length l) -> id <> 0 -> lookup0 idf l id <> None.
+Proof.
+  intros A idf l id H Hr Hz. destruct (lookup0_range idf l id H) as [x [Hx _]]; [lia|]. congruence.
+Qed.
+
+Lemma ok_nn_valid : forall q,
+  ok q -> nn q (List.length (p_sampletype q)) ->
+  (p_sample q = [] \/ List.length (p_sampletype q) <> 0%nat) -> valid_b q = true.
+Proof.
+  intros q Hok [N1 N2 N3] Hne. unfold valid_b.
+  repeat (apply andb_true_intro; split).
+  - destruct Hne as [->|Hn]; [apply orb_true_r|]. apply orb_true_iff. left.
+    apply negb_true_iff. apply Nat.eqb_neq. exact Hn.
+  - apply forallb_forall. intros s Hs. rewrite Forall_forall in N2, N3.
+    apply andb_true_intro. split; [apply Nat.eqb_eq; apply N3; exact Hs|].
+    apply forallb_forall. intros id Hid. pose proof (ok_smp _ Hok) as R. rewrite Forall_forall in R.
+    specialize (R s Hs). unfold sample_refs_ok in R. rewrite Forall_forall in R.
+    specialize (N2 s Hs). rewrite Forall_forall in N2.
+    pose proof (lookup_some_of_range l_id (p_location q) id (ok_lc _ Hok) (R id Hid) (N2 id Hid)) as L.
+    change (lookup0 l_id (p_location q) id) with (lookup_loc q id) in L. destruct (lookup_loc q id); congruence.
+  - apply ids_seq_nonzero. apply (ok_mp _ Hok).
+  - eapply ids_from_nodupZ. apply (ok_mp _ Hok).
+  - apply ids_seq_nonzero. apply (ok_fn _ Hok).
+  - eapply ids_from_nodupZ. apply (ok_fn _ Hok).
+  - apply ids_seq_nonzero. apply (ok_lc _ Hok).
+  - eapply ids_from_nodupZ. apply (ok_lc _ Hok).
+  - apply forallb_forall. intros l Hl. pose proof (ok_refs _ Hok) as R. rewrite Forall_forall in R.
+    destruct (R l Hl) as [R1 R2]. rewrite Forall_forall in N1. specialize (N1 l Hl).
+    apply andb_true_intro. split.
+    + destruct (l_mapping l =? 0) eqn:E; [reflexivity|]. apply Z.eqb_neq in E. cbn [orb].
+      pose proof (lookup_some_of_range m_id (p_mapping q) _ (ok_mp _ Hok) R1 E) as L.
+      change (lookup0 m_id (p_mapping q) (l_mapping l)) with (lookup_map q (l_mapping l)) in L.
+      destruct (lookup_map q (l_mapping l)); congruence.
+    + apply forallb_forall. intros ln Hln. rewrite Forall_forall in R2, N1.
+      pose proof (lookup_some_of_range f_id (p_function q) _ (ok_fn _ Hok) (R2 ln Hln) (N1 ln Hln)) as L.
+      change (lookup0 f_id (p_function q) (ln_fn ln)) with (lookup_fn q (ln_fn ln)) in L.
+      destruct (lookup_fn q (ln_fn ln)); congruence.
+Qed.
+
+Lemma ok_nn_src_ok : forall q nst, ok q -> nn q nst -> src_ok q nst.
+Proof.
+  intros q nst Hok [N1 N2 N3]. split.
+  - intros l Hl ln Hln. pose proof (ok_refs _ Hok) as R. rewrite Forall_forall in R, N1.
+    destruct (R l Hl) as [_ R2]. specialize (N1 l Hl). rewrite Forall_forall in R2, N1.
+    exact (lookup_some_of_range f_id (p_function q) _ (ok_fn _ Hok) (R2 ln Hln) (N1 ln Hln)).
+  - intros s Hs. rewrite Forall_forall in N2, N3. split; [|apply N3; exact Hs].
+    intros id Hid. pose proof (ok_smp _ Hok) as R. rewrite Forall_forall in R.
+    specialize (R s Hs). unfold sample_refs_ok in R. rewrite Forall_forall in R.
+    specialize (N2 s Hs). rewrite Forall_forall in N2.
+    exact (lookup_some_of_range l_id (p_location q) id (ok_lc _ Hok) (R id Hid) (N2 id Hid)).
+Qed.
+
+Lemma merge_pass_nn : forall ps q nst,
+  Forall (fun p => src_ok p nst) ps -> merge_pass ps = MOk q -> nn q nst.
+Proof.
+  intros ps q nst S H. unfold merge_pass in H. destruct ps as [|p0 rest]; [discriminate|].
+  destruct (compat_all p0 rest); try discriminate. injection H as <-.
+  apply (merge_srcs_nn nst (p0 :: rest)); [apply ok_combine_headers | split; cbn; constructor | exact S].
+Qed.
+
+Lemma merge_pass_ok : forall ps q, merge_pass ps = MOk q -> ok q.
+Proof.
+  intros ps q H. unfold merge_pass in H. destruct ps as [|p0 rest]; [discriminate|].
+  destruct (compat_all p0 rest); try discriminate. injection H as <-.
+  apply (merge_srcs_spec (p0 :: rest) _ (ok_combine_headers p0 (p0 :: rest))).
+Qed.
+
+Lemma merge_fuel_nn : forall n ps q nst,
+  Forall (fun p => src_ok p nst) ps -> merge_fuel n ps = MOk q -> nn q nst.
+Proof.
+  induction n as [|n IH]; intros ps q nst S H; cbn [merge_fuel] in H;
+    destruct (merge_pass ps) as [p| | |] eqn:E; try discriminate;
+    destruct (existsb is_zero_sample (p_sample p)); try discriminate.
+  - inversion H; subst. eapply merge_pass_nn; eauto.
+  - eapply IH; [|exact H]. constructor; [|constructor].
+    apply ok_nn_src_ok; [eapply merge_pass_ok; eauto | eapply merge_pass_nn; eauto].
+  - inversion H; subst. eapply merge_pass_nn; eauto.
+Qed.
+
+Lemma vts_eqb_length : forall a b, vts_eqb a b = true -> List.length a = List.length b.
+Proof.
+  induction a as [|x a IH]; intros b H; destruct b as [|y b]; cbn in *; try discriminate; [reflexivity|].
+  apply andb_true_iff in H. destruct H as [_ H]. rewrite (IH _ H). reflexivity.
+Qed.
+
+Lemma compat_all_lengths : forall p0 rest,
+  compat_all p0 rest = CompatOk ->
+  Forall (fun p => List.length (p_sampletype p) = List.length (p_sampletype p0)) rest.
+Proof.
+  intros p0. induction rest as [|p r IH]; intros H; cbn [compat_all] in H; [constructor|].
+  destruct (compatible p0 p) eqn:E; try discriminate. constructor; [|apply IH; exact H].
+  unfold compatible in E. destruct (p_periodtype p0); [|discriminate]. destruct (p_periodtype p); [|discriminate].
+  destruct (vt_eqb v v0 && vts_eqb (p_sampletype p0) (p_sampletype p)) eqn:F; [|discriminate].
+  apply andb_true_iff in F. destruct F as [_ F]. symmetry. apply vts_eqb_length. exact F.
+Qed.
+
+(* C03, validity: merging valid profiles yields a profile that passes CheckValid *)
+Theorem merge_valid_lemma : forall ps q,
+  Forall (fun p => valid_b p = true) ps -> merge ps = MOk q -> valid_b q = true.
+Proof.
+  intros ps q V H. destruct ps as [|p0 rest].
+  { cbn in H. discriminate. }
+  destruct (merge_headers_lemma p0 rest q H) as (_ & _ & _ & _ & _ & _ & _ & _ & Hst & _).
+  assert (C : compat_all p0 rest = CompatOk).
+  { unfold merge in H. cbn [merge_fuel] in H. unfold merge_pass in H.
+    destruct (compat_all p0 rest); [reflexivity | discriminate | discriminate]. }
+  assert (S : Forall (fun p => src_ok p (List.length (p_sampletype q))) (p0 :: rest)).
+  { rewrite Hst. inversion V as [|? ? V0 Vr]; subst. constructor; [apply valid_b_src_ok; exact V0|].
+    pose proof (compat_all_lengths p0 rest C) as L. rewrite Forall_forall in *. intros p Hp.
+    rewrite <- (L p Hp). apply valid_b_src_ok. apply Vr. exact Hp. }
+  apply ok_nn_valid; [eapply merge_fuel_ok; eauto | eapply merge_fuel_nn; eauto |].
+  destruct (p_sample q) as [|s r] eqn:Es; [left; reflexivity | right].
+  pose proof (merge_no_zero_lemma _ _ H s) as Z. rewrite Es in Z. specialize (Z (or_introl eq_refl)).
+  pose proof (merge_fuel_nn _ _ _ _ S H) as [_ _ N3]. rewrite Es in N3. inversion N3 as [|? ? Hl _]; subst.
+  intros Z0. rewrite Z0 in Hl. destruct (s_val s) eqn:Ev; [|discriminate].
+  unfold is_zero_sample in Z. rewrite Ev in Z. discriminate.
+Qed.
+
+(* ------------------------------------------------------------------ the re-merge recursion stops *)
+Lemma idents_nodup : forall q, ok q -> keys_ok q -> NoDup (map (sample_ident_of q) (p_sample q)).
+Proof.
+  intros q Hok K. apply (NoDup_map_inj_on skey_of_sample); [apply (k_sm _ K)|].
+  intros x y Hx Hy E. pose proof (ok_smp _ Hok) as R. rewrite Forall_forall in R.
+  apply (skey_of_ident q); auto.
+Qed.
+
+(* int64 values: fixed points of the wrap *)
+Definition vals_ok (p : profile) : Prop :=
+  Forall (fun s => Forall (fun v => wrap_i64 v = v) (s_val s)) (p_sample p).
+
+Lemma add_vals_range : forall a b,
+  Forall (fun v => wrap_i64 v = v) a -> Forall (fun v => wrap_i64 v = v) (add_vals a b).
+Proof.
+  induction a as [|x a IH]; intros b H; destruct b as [|y b]; cbn [add_vals].
+  - constructor.
+  - apply Forall_forall. intros v Hv. apply in_map_iff in Hv. destruct Hv as [w [<- _]]. apply wrap_i64_idem.
+  - exact H.
+  - inversion H; subst. constructor; [apply wrap_i64_idem | apply IH; assumption].
+Qed.
+
+Lemma merge_src_vals : forall src st, ok st -> vals_ok src -> vals_ok st -> vals_ok (merge_src st src).
+Proof.
+  intros src st Hok Hs H0. unfold merge_src.
+  destruct (eager_first_mapping_spec st src Hok) as (A1 & _ & A3).
+  assert (E : vals_ok (eager_first_mapping st src)) by (unfold vals_ok; rewrite A3; exact H0).
+  assert (G : forall l st0, (forall s, In s l -> In s (p_sample src)) -> ok st0 -> vals_ok st0 ->
+                            vals_ok (fold_left (merge_sample src) l st0)).
+  { induction l as [|s l IH]; intros st0 Hsub O0 V0; cbn [fold_left]; [exact V0|].
+    destruct (merge_sample_spec st0 src s O0) as (B1 & _).
+    apply IH; [intros x Hx; apply Hsub; right; exact Hx | exact B1|].
+    unfold merge_sample. destruct (is_zero_sample s); [exact V0|]. unfold map_sample.
+    destruct (map_locs st0 src (s_loc s)) as [st1 locs] eqn:E1.
+    destruct (map_locs_spec _ _ _ _ _ O0 E1) as (_ & _ & C3 & _).
+    assert (V1 : vals_ok st1) by (unfold vals_ok; rewrite C3; exact V0).
+    destruct (existsb _ (p_sample st1)); unfold vals_ok in *; cbn.
+    - apply Forall_upd_first; [|exact V1]. intros x Hx. cbn. apply add_vals_range. exact Hx.
+    - apply Forall_app. split; [exact V1|]. constructor; [|constructor]. cbn.
+      rewrite Forall_forall in Hs. apply Hs. apply Hsub. left. reflexivity. }
+  apply G; auto.
+Qed.
+
+Lemma merge_pass_vals : forall ps q, Forall vals_ok ps -> merge_pass ps = MOk q -> vals_ok q.
+Proof.
+  intros ps q V H. unfold merge_pass in H. destruct ps as [|p0 rest]; [discriminate|].
+  destruct (compat_all p0 rest); try discriminate. injection H as <-.
+  assert (G : forall l st, ok st -> vals_ok st -> Forall vals_ok l -> vals_ok (fold_left merge_src l st)).
+  { induction l as [|p l IH]; intros st O V0 Vl; cbn [fold_left]; [exact V0|].
+    inversion Vl; subst. destruct (merge_src_spec st p O) as (B1 & _).
+    apply IH; [exact B1 | apply merge_src_vals; assumption | assumption]. }
+  apply (G (p0 :: rest)); [apply ok_combine_headers | constructor | exact V].
+Qed.
+
+(* every sample of the state stems from a non-zero sample of the (single) source *)
+Definition sup (src st : profile) : Prop :=
+  Forall (fun ss => exists s, In s (p_sample src) /\ is_zero_sample s = false /\
+                              sample_ident_of src s = sample_ident_of st ss) (p_sample st).
+
+Lemma map_sample_sup : forall st src s,
+  ok st -> sup src st -> In s (p_sample src) -> is_zero_sample s = false -> sup src (map_sample st src s).
+Proof.
+  intros st src s Hok U Hin Hz. unfold map_sample.
+  destruct (map_locs st src (s_loc s)) as [st1 locs] eqn:E.
+  destruct (map_locs_spec _ _ _ _ _ Hok E) as (A1 & A2 & A3 & A4 & A5).
+  assert (U1 : Forall (fun ss => exists s0, In s0 (p_sample src) /\ is_zero_sample s0 = false /\
+                                 sample_ident_of src s0 = sample_ident_of st1 ss) (p_sample st1)).
+  { rewrite A3. unfold sup in U. pose proof (ok_smp _ Hok) as R. rewrite Forall_forall in *.
+    intros ss Hss. destruct (U ss Hss) as [s0 [H1 [H2 H3]]]. exists s0. split; [exact H1|]. split; [exact H2|].
+    rewrite (sample_ident_ext st st1); auto. }
+  destruct (existsb _ (p_sample st1)); unfold sup; cbn [p_sample with_sample].
+  - apply Forall_upd_first; [|exact U1]. intros x Hx. exact Hx.
+  - apply Forall_app. split; [exact U1|]. constructor; [|constructor].
+    exists s. split; [exact Hin|]. split; [exact Hz|].
+    change (sample_ident_of (with_sample st1 (p_sample st1 ++ [new_sample locs s])) (new_sample locs s))
+      with (sample_ident_of st1 (new_sample locs s)).
+    unfold sample_ident_of, labels_ident_of. rewrite numlabels_new_sample. cbn [s_loc s_label new_sample].
+    rewrite A5. reflexivity.
+Qed.
+
+Lemma merge_single_sup : forall src q, merge_pass [src] = MOk q -> sup src q.
+Proof.
+  intros src q H. unfold merge_pass in H. cbn [compat_all] in H. injection H as <-.
+  cbn [fold_left]. unfold merge_src.
+  pose proof (ok_combine_headers src [src]) as O0.
+  destruct (eager_first_mapping_spec _ src O0) as (A1 & _ & A3).
+  assert (U0 : sup src (eager_first_mapping (combine_headers src [src]) src)).
+  { unfold sup. rewrite A3. cbn. constructor. }
+  assert (G : forall l st0, (forall s, In s l -> In s (p_sample src)) -> ok st0 -> sup src st0 ->
+                            sup src (fold_left (merge_sample src) l st0)).
+  { induction l as [|s l IH]; intros st0 Hsub O U; cbn [fold_left]; [exact U|].
+    destruct (merge_sample_spec st0 src s O) as (B1 & _).
+    apply IH; [intros x Hx; apply Hsub; right; exact Hx | exact B1|].
+    unfold merge_sample. destruct (is_zero_sample s) eqn:Z; [exact U|].
+    apply map_sample_sup; auto. apply Hsub. left. reflexivity. }
+  apply G; auto.
+Qed.
+
+Lemma eq64_zero_range : forall x, wrap_i64 x = x -> eq64 0 x -> x = 0.
+Proof. intros x Hx H. unfold eq64 in H. rewrite Hx in H. rewrite <- H. reflexivity. Qed.
+
+Lemma second_pass_no_zero : forall p1 p2,
+  ok p1 -> keys_ok p1 -> vals_ok p1 -> merge_pass [p1] = MOk p2 ->
+  existsb is_zero_sample (p_sample p2) = false.
+Proof.
+  intros p1 p2 O1 K1 V1 H.
+  destruct (existsb is_zero_sample (p_sample p2)) eqn:Ex; [|reflexivity]. exfalso.
+  apply existsb_exists in Ex. destruct Ex as [s2 [Hs2 Z2]].
+  pose proof (merge_pass_ok _ _ H) as O2. pose proof (merge_pass_keys _ _ H) as K2.
+  pose proof (merge_single_sup _ _ H) as U. unfold sup in U. rewrite Forall_forall in U.
+  destruct (U s2 Hs2) as [s1 [Hs1 [Z1 Ek]]].
+  assert (C : forall j, nth j (s_val s1) 0 = 0).
+  { intros j.
+    pose proof (merge_pass_ws _ _ H (fun i => sid_eqb i (sample_ident_of p2 s2)) j) as W.
+    cbn [map] in W. rewrite sumZ_cons in W. cbn [sumZ fold_right] in W.
+    rewrite Z.add_0_r in W. rewrite <- !wt_ws in W. unfold wt in W.
+    rewrite (wt_list_unique p2 (p_sample p2) _ j s2 (idents_nodup p2 O2 K2) Hs2 eq_refl) in W.
+    rewrite (wt_list_unique p1 (p_sample p1) _ j s1 (idents_nodup p1 O1 K1) Hs1 Ek) in W.
+    rewrite (zero_sample_nth s2 j Z2) in W.
+    apply eq64_zero_range; [|exact W].
+    unfold vals_ok in V1. rewrite Forall_forall in V1. specialize (V1 s1 Hs1). rewrite Forall_forall in V1.
+    destruct (nth_in_or_default j (s_val s1) 0) as [Hin|Hd]; [apply V1; exact Hin | rewrite Hd; reflexivity]. }
+  assert (is_zero_sample s1 = true).
+  { unfold is_zero_sample. apply forallb_forall. intros v Hv. apply Z.eqb_eq.
+    destruct (In_nth _ _ 0 Hv) as [j [_ Hj]]. rewrite <- Hj. apply C. }
+  congruence.
+Qed.
+
+(* C03, termination of the re-merge: Merge calls itself at most once *)
+Theorem remerge_terminates_lemma : forall ps, Forall vals_ok ps -> merge ps <> MFuel.
+Proof.
+  intros ps V. unfold merge. cbn [merge_fuel].
+  destruct (merge_pass ps) as [p1| | |] eqn:E1; try discriminate.
+  - destruct (existsb is_zero_sample (p_sample p1)); [|discriminate].
+    destruct (merge_pass [p1]) as [p2| | |] eqn:E2; try discriminate.
+    rewrite (second_pass_no_zero p1 p2); try discriminate; auto.
+    + eapply merge_pass_ok; eauto.
+    + eapply merge_pass_keys; eauto.
+    + eapply merge_pass_vals; eauto.
+  - unfold merge_pass in E1. destruct ps as [|p0 rest]; [discriminate|].
+    destruct (compat_all p0 rest); discriminate.
+Qed.
+
+Lemma merge_fuel_vals : forall n ps q, Forall vals_ok ps -> merge_fuel n ps = MOk q -> vals_ok q.
+Proof.
+  induction n as [|n IH]; intros ps q V H; cbn [merge_fuel] in H;
+    destruct (merge_pass ps) as [p| | |] eqn:E; try discriminate;
+    destruct (existsb is_zero_sample (p_sample p)); try discriminate.
+  - inversion H; subst. eapply merge_pass_vals; eauto.
+  - eapply IH; [|exact H]. constructor; [eapply merge_pass_vals; eauto | constructor].
+  - inversion H; subst. eapply merge_pass_vals; eauto.
+Qed.
+
+(* C03, compaction is idempotent -- the part proved here: compacting a merge result succeeds in
+   one pass and changes neither any weight nor the header *)
+Theorem compact_idempotent_partial_lemma : forall ps q,
+  Forall vals_ok ps -> merge ps = MOk q ->
+  exists q', compact q = MOk q' /\ (forall k j, eq64 (wt q' k j) (wt q k j)) /\ hdr q' = hdr q /\
+             NoDup (map (sample_ident_of q') (p_sample q')).
+Proof.
+  intros ps q V H.
+  pose proof (merge_fuel_ok _ _ _ H) as O. pose proof (merge_fuel_keys _ _ _ H) as K.
+  pose proof (merge_fuel_vals _ _ _ V H) as Vq.
+  destruct (merge_pass [q]) as [q'| | |] eqn:E; try (unfold merge_pass in E; cbn in E; discriminate).
+  pose proof (second_pass_no_zero q q' O K Vq E) as Z.
+  assert (C : compact q = MOk q').
+  { unfold compact, merge. cbn [merge_fuel]. rewrite E, Z. reflexivity. }
+  exists q'. split; [exact C|]. split; [|split].
+  - intros k j. pose proof (merge_conserves_lemma [q] q' C k j) as W. cbn [map] in W.
+    rewrite sumZ_cons in W. cbn [sumZ fold_right] in W. rewrite Z.add_0_r in W. exact W.
+  - rewrite (merge_fuel_hdr _ _ _ _ C).
+    destruct ps as [|p0 rest]; [cbn in H; discriminate|].
+    destruct (hdr_fields_good p0 (p0 :: rest) q (merge_fuel_hdr _ _ _ _ H)) as [Hd Hc].
+    apply combine_single; assumption.
+  - eapply merge_distinct_lemma; eauto.
+Qed.
